@@ -228,3 +228,15 @@ Theorem C03_join_runahead_unbounded :
     s' = St t m (k + Z.of_nat n) /\ pub_ids o = ids_from k n.
 Proof. intros t m topic n k H1 H2. exact (repeated_request_is_credit t m topic n k H1 H2). Qed.
 Print Assumptions C03_join_runahead_unbounded.
+
+(* one hop of the chain, publisher side: whatever a filter publishes under id k is the topic/payload list its process() result was
+   turned into for the call made with state k (MQGlue: the state of the send is the id of the frame set just received).
+   Together with C03_edge_lossless (consumer side of the hop) the sink of a chain sees, in order and each at most once, images
+   under the relays' process functions of source frames, under the source's ids. *)
+From OF Require Import Proto.Sender Proto.Sender_Faithful.
+Theorem C03_relay_publishes_what_process_returned :
+  forall nout bal req its outs mid b topics parts,
+    In (SOPub outs mid b topics parts) (snd (srun (init_sender nout bal req) its)) ->
+    exists st lazy to push t, In (SCall st lazy (Some parts) to push t) its /\ (forall m bb, st = Some (m, bb) -> m = mid).
+Proof. exact sender_publishes_what_it_was_given. Qed.
+Print Assumptions C03_relay_publishes_what_process_returned.
